@@ -93,7 +93,9 @@ func init() {
 	streams["cfg"] = func(g *gen, cw *caseWriter, n int, thorough bool) {
 		// every subset of the required fields × checksum kinds
 		for mask := 0; mask < 16; mask++ {
-			for _, cs := range []interface{}{nil, true, false, "true", 1, 0.5, []byte{1}, struct{}{}} {
+			bt, bf, str := true, false, "x"
+			for _, cs := range []interface{}{nil, true, false, "true", 1, 0.5, []byte{1}, struct{}{}, &bt, &bf, &str, (*bool)(nil), (*int)(nil), (*interface{})(nil),
+				map[string]bool{}, func() {}, namedBool(true), []interface{}{true}, [1]bool{true}, make(chan bool)} {
 				c := rscp.ClientConfig{UseChecksum: cs}
 				if mask&1 != 0 {
 					c.Address = "host"
@@ -109,6 +111,14 @@ func init() {
 				}
 				cfgCase(cw, c, fmt.Sprintf("required-mask=%d cs=%T", mask, cs))
 			}
+		}
+		// user names, passwords, addresses and keys of unusual but legal shape
+		for _, v := range []string{"@", "@home", "a@", "@@", "user@example.org", "@" + strings.Repeat("x", 300), " ", "\t", "\x00", "ä", "😀", "%s", "%!d(string=x)", "a b", "-", "--user", "=", "\\", "\"", "'"} {
+			cfgCase(cw, rscp.ClientConfig{Address: "h", Username: v, Password: "p", Key: "k"}, "unusual-user")
+			cfgCase(cw, rscp.ClientConfig{Address: "h", Username: "u", Password: v, Key: "k"}, "unusual-password")
+			cfgCase(cw, rscp.ClientConfig{Address: v, Username: "u", Password: "p", Key: "k"}, "unusual-address")
+			cfgCase(cw, rscp.ClientConfig{Address: "h", Username: "u", Password: "p", Key: v}, "unusual-key")
+			cfgCase(cw, rscp.ClientConfig{Address: v, Username: v, Password: v, Key: v}, "unusual-all")
 		}
 		// key lengths one by one (and long strings in the other fields)
 		for l := 1; l <= 70; l++ {
